@@ -282,7 +282,7 @@ def oracle_c05(steps: list[Step]) -> list[Violation]:
 import re as _re
 
 # `{ a, b, }:` / `{\n  a,\n}@args:` - the closing brace of an argument set right after a comma
-_TRAILING_COMMA_FORMALS = _re.compile(r",\s*(?:#[^\n]*\n\s*)*\}\s*(?::|@)")
+_TRAILING_COMMA_FORMALS = _re.compile(r",\s*(?:(?:#[^\n]*\n|/\*.*?\*/)\s*)*\}\s*(?::|@)", _re.S)
 
 
 def fixed_point_violation(text: str, what: str, step, facts) -> Violation | None:
